@@ -21,7 +21,8 @@ class QueryResult:
         self.assumptions = []; self.unit = None; self.functions = []
 
 def _limit():
-    resource.setrlimit(resource.RLIMIT_AS, (14 << 30, 14 << 30))
+    gb = int(os.environ.get('VERIF_MEM_GB', '14'))
+    resource.setrlimit(resource.RLIMIT_AS, (gb << 30, gb << 30))
 
 def run(cmd, timeout, log=None, cwd=None):
     t0 = time.time()
@@ -91,7 +92,10 @@ class UnitBuilder:
             setattr(u2, attr, getattr(u, attr))
         u2.hooks = SpecHooks(self.uspec)
         u2.self_stub = set(selfstubs); u2.canary_fns = set(canaries)
-        u2.switch_slice = {(fn, k): (i, n) for (fn, k, i, n) in slices}
+        u2.switch_slice = {(fn, k): (i, n) for (fn, k, i, n) in slices if k != 'if'}
+        u2.branch_cuts = {}
+        for (fn, k, i, n) in slices:
+            if k == 'if': u2.branch_cuts.setdefault(fn, []).append({'side': i, 'text': n, 'hits': 0})
         u2.by_contract = set()
         for pat in self.uspec.by_contract:
             u2.by_contract |= set(self.glob_fns(pat))
@@ -135,12 +139,19 @@ def run_query(builder, q, vars_, tier, workroot):
         u = builder.load()
         tpat = subst(q.target, vars_)
         targets = builder.glob_fns(tpat)
+        if not targets and q.also:
+            # the target may be a lambda, which only gets its name while the enclosing function is translated
+            pre = set()
+            for pat in q.also: pre |= set(builder.glob_fns(subst(pat, vars_)))
+            if pre:
+                builder.unit_text(set(), set(), pre)
+                targets = builder.glob_fns(tpat)
         if len(targets) != 1:
             res.reason = 'target pattern %r matches %d functions (extraction changed?)' % (tpat, len(targets)); return res
         target = targets[0]; res.target = target
         selfstubs = {target} if q.selfstub else set()
         canaries = {target}
-        slices = tuple((subst(fn, vars_).replace('TARGET', target), k, (i if i in ('only', 'except') else int(subst(i, vars_))), n) for (fn, k, i, n) in q.switch_slice)
+        slices = tuple((subst(fn, vars_).replace('TARGET', target), k, (i if i in ('only', 'except', 'then', 'else', 'stop') else int(subst(i, vars_))), (subst(n, vars_) if isinstance(n, str) else n)) for (fn, k, i, n) in q.switch_slice)
         roots = {target}
         for pat in q.also:
             m = builder.glob_fns(subst(pat, vars_))
@@ -148,6 +159,10 @@ def run_query(builder, q, vars_, tier, workroot):
                 res.reason = 'also pattern %r matches nothing' % pat; return res
             roots |= set(m)
         text, u2 = builder.unit_text(selfstubs, canaries, roots, slices)
+        for fn_, cuts in getattr(u2, 'branch_cuts', {}).items():
+            for bc in cuts:
+                if bc['hits'] != 1:
+                    res.reason = 'branch-cut %r of %s matches %d if-statements (extraction changed?)' % (bc['text'], fn_, bc['hits']); return res
         tnode = u2.fn_by_cname[target]
         # harness
         params = []
@@ -155,6 +170,8 @@ def run_query(builder, q, vars_, tier, workroot):
         if u2.fn_is_method(tnode):
             cq = u2.fn_class_qname(tnode)
             decls.append('struct %s *self;' % u2.record_cname(cq)); params.append('self')
+        if tnode.get('_lambda_env'):
+            decls.append('void *__env;'); params.append('__env')
         for p in u2.fn_params(tnode):
             pn = p.get('name') or '__unnamed%d' % len(params)
             decls.append(u2.decl_text(p['type'], pn) + ';'); params.append(pn)
@@ -176,9 +193,11 @@ def run_query(builder, q, vars_, tier, workroot):
         replace = set()
         for pat in q.replace:
             pat = subst(pat, vars_)
+            if pat.startswith('='):      # a function declared (with its contract) in the spec's prelude
+                replace.add(pat[1:]); continue
             m = [c for c in list(u2.fn_text.keys()) + stubs if fnmatch.fnmatchcase(c, pat)]
-            if not m and '*' not in pat:
-                res.reason = 'replace pattern %r matches nothing' % pat; return res
+            # a pattern that matches nothing is fine (e.g. the callee only occurs in another switch slice); a bodiless
+            # function that is NOT replaced is caught below
             replace |= set(m)
         for s in stubs:
             if s.endswith('__self'): replace.add(s)
@@ -186,7 +205,7 @@ def run_query(builder, q, vars_, tier, workroot):
                 res.reason = 'bodiless function %s is not replaced by a contract' % s; return res
         timeout = q.timeout or (180 if tier == 'quick' else 900)
         gb1 = os.path.join(qdir, 'a.gb'); gb2 = os.path.join(qdir, 'b.gb')
-        rc, so, se, dt = run(['goto-cc', '-I' + SHIMS] + list(uspec.cflags) + list(q.cflags) + ['--function', 'harness', cfile, '-o', gb1], 120)
+        rc, so, se, dt = run(['goto-cc', '-I' + SHIMS] + list(uspec.cflags) + [subst(f, vars_) for f in q.cflags] + ['--function', 'harness', cfile, '-o', gb1], 120)
         if rc != 0:
             res.reason = 'goto-cc failed: ' + (so + se)[-1500:]; return res
         if q.pre_unwind:
@@ -283,7 +302,13 @@ def run_query(builder, q, vars_, tier, workroot):
                 # loop obligations are located at the loop head; the invariant clauses follow within a few lines
                 for l2 in range(line + 1, line + 10):
                     if any('#loop' in x for x in lm.get(l2, [])):
-                        labels = [x for x in lm[l2] if '#loop' in x]; break
+                        # one obligation covers the conjunction of all invariant clauses of the loop
+                        l3 = l2
+                        while any('#loop' in x for x in lm.get(l3, [])):
+                            labels += [x for x in lm[l3] if '#loop' in x]; l3 += 1
+                        if 'loop_decreases' not in prop and len(labels) > 3:
+                            labels = [labels[0].rsplit('.', 1)[0].split('#')[0] + '#' + labels[0].split('#', 1)[1].split('.')[0] + '.invariants']
+                        break
             cls = prop.split('.')[-2] if prop.count('.') >= 2 else prop
             classes.add(cls)
             srcl = nearest_src(slm, line) if line else None
